@@ -45,6 +45,7 @@ static inline uint64_t myth_get_rdtsc() {
 }
 
 static inline int hr_gettime(struct timespec * ts) {
+  if (MYTH_VERIF_CLOCK(ts)) return 0;
 #if defined(HAVE_LIBRT)
   return clock_gettime(CLOCK_REALTIME, ts);
 #else
@@ -74,6 +75,9 @@ static inline int myth_random(int min,int max) {
     myth_random_init(((unsigned)time(NULL)));
   }
   ret=min+(int)(rand_r(&g_myth_random_temp)*((double)max-min)/(1.0+RAND_MAX));
+#ifdef MYTH_VERIF
+  { int off_ = ret - min; MYTH_VERIF_CHOOSE(off_, mythv_p_random, max - min); ret = min + off_; }
+#endif
   return ret;
 }
 
